@@ -15,6 +15,12 @@
 // The payload of the typed suspend points is int or Tracked (identity + moved-from flag): the attached
 // value is observed through a probe, never through the accessors under test.
 //
+// Control-flow contexts (last argument of Clear / Destroy / CreateSP / Finish; absent = "flow"): the operation
+// is executed in ordinary flow; "unwind": on an automatic object of a scope that is left by an exception
+// (the object is moved into a local of a scope which then throws; the exception is caught by the replayer);
+// "dtor": by the destructor of a scope guard while an exception unwinds the guard's scope; "catch": inside
+// a handler.  With alt = 1 a destruction in flow / dtor / catch is the temporary of a discarded return value.
+//
 // header: {"mode":"normal"|"coro", "maxh":N, "maxobj":M, "alt":0|1, "payload":"int"|"tracked"}
 // projection: {"blocks","burst":[ids],"dalloc","done","dres","mode","nextH","queue":[ids],"resumed":[counts],
 //              "ret","rmf","sp":[{"cap","h":[ids],"heap","live","mv","ty","val"}...]}
@@ -102,6 +108,32 @@ struct Tracked {
         return *this;
     }
 };
+// the exception of the scripted scopes, a scope guard, and an operation run in a control-flow context
+struct Unwind {};
+template <typename F>
+struct AtExit {
+    F &f;
+    ~AtExit() noexcept(false) { f(); }
+};
+template <typename Op>
+static void in_ctx(const std::string &c, Op &&op) {
+    if (c == "dtor") {
+        try {
+            AtExit<Op> guard{op};
+            throw Unwind();             // op runs while this exception unwinds the scope of `guard`
+        } catch (const Unwind &) {
+        }
+    } else if (c == "catch") {
+        try {
+            throw Unwind();
+        } catch (const Unwind &) {
+            op();                       // op runs while the exception is being handled
+        }
+    } else {
+        op();
+    }
+}
+
 static int idof(const int &v) { return v; }
 static int idof(const Tracked &v) { return v.id; }
 static bool mfof(const int &) { return false; }
@@ -373,12 +405,36 @@ struct World {
             Slot &s = slots[st.iarg(0)];
             int j = st.iarg(1);
             bool thrw = st.sarg(2) == "TRUE", t = st.sarg(3) == "TRUE";
+            const std::string &c = st.sarg(4);
             int v = st.iarg(0);
             if (s.live || (j && !slots[j].live)) { err = "bad slots"; return false; }
+            if (!j && !c.empty() && c != "flow") { err = "context without an object"; return false; }
             struct FnThrew {};
             auto body = [&] {
-                if (j) with(slots[j], [&](auto &o) { if (alt) { SPV discarded(std::move(o)); } else o.clear(); });
-                if (thrw) throw FnThrew();
+                if (!j) {
+                    if (thrw) throw FnThrew();
+                    return;
+                }
+                with(slots[j], [&](auto &o) {
+                    auto give_up = [&] { if (alt) { SPV discarded(std::move(o)); } else o.clear(); };
+                    if (c == "unwind") {
+                        SPV held(std::move(o));         // destroyed by the unwinding of fn
+                        throw FnThrew();
+                    } else if (c == "dtor") {
+                        AtExit<decltype(give_up)> guard{give_up};
+                        throw FnThrew();
+                    } else if (c == "catch") {
+                        try {
+                            throw Unwind();
+                        } catch (const Unwind &) {
+                            give_up();
+                            if (thrw) throw FnThrew();
+                        }
+                    } else {
+                        give_up();
+                        if (thrw) throw FnThrew();
+                    }
+                });
             };
             try {
                 lib([&] {
@@ -400,9 +456,14 @@ struct World {
             if (ret > 0 && ret != self_id()) c.resume();
         } else if (a == "Clear") {
             Slot &s = slots[st.iarg(0)];
-            with(s, [&](auto &o) { lib([&] { if (alt) o.suspend_now(); else o.clear(); }); });
+            with(s, [&](auto &o) { lib([&] { in_ctx(st.sarg(1), [&] { if (alt) o.suspend_now(); else o.clear(); }); }); });
         } else if (a == "Destroy") {
-            destroy(slots[st.iarg(0)]);
+            Slot &s = slots[st.iarg(0)];
+            if (!s.live) { err = "slot not live"; return false; }
+            const std::string &c = st.sarg(1);
+            if (c == "unwind") lib([&] { try { unwind_scope(st.iarg(0), st.iarg(0)); } catch (const Unwind &) {} });
+            else if (alt) in_ctx(c, [&] { discard(s); });
+            else in_ctx(c, [&] { destroy(s); });
         } else {
             err = "unknown action";
             return false;
@@ -410,11 +471,44 @@ struct World {
         return true;
     }
 
-    void destroy(Slot &s) {
-        if (!s.live) return;
-        lib([&] { if (s.typed) s.ti().~SPT(); else s.tv().~SPV(); });
+    void destroy_raw(Slot &s) {
+        if (s.typed) s.ti().~SPT(); else s.tv().~SPV();
         s.live = false;
         s.typed = false;
+    }
+
+    void destroy(Slot &s) {
+        if (!s.live) return;
+        lib([&] { destroy_raw(s); });
+    }
+
+    // the object leaves its slot as the return value of a function; the temporary is discarded
+    void discard(Slot &s) {
+        if (!s.live) return;
+        lib([&] {
+            if (s.typed) [&]() -> SPT { return SPT(std::move(s.ti())); }();
+            else [&]() -> SPV { return SPV(std::move(s.tv())); }();
+        });
+        destroy(s);     // what stays behind is empty
+    }
+
+    // the objects of the slots hi, hi-1, .., lo become automatic objects of nested scopes (the one of the
+    // lowest slot is the innermost: it is destroyed first), then an exception leaves all of them.
+    // To be called under lib().
+    void unwind_scope(int hi, int lo) {
+        if (hi < lo) throw Unwind();
+        Slot &s = slots[hi];
+        if (!s.live) {
+            unwind_scope(hi - 1, lo);
+        } else if (s.typed) {
+            SPT local(std::move(s.ti()));
+            destroy_raw(s);
+            unwind_scope(hi - 1, lo);
+        } else {
+            SPV local(std::move(s.tv()));
+            destroy_raw(s);
+            unwind_scope(hi - 1, lo);
+        }
     }
 };
 
@@ -517,9 +611,21 @@ static void run(const Scenario &sc, Reporter &rep) {
             w.failed = true;
         } else {
             // the driver is suspended; the ready queue has been flushed.  Scope exit of the objects.
-            auto scope_exit = [&] { for (int k = 1; k <= w.maxobj; k++) w.destroy(w.slots[k]); };
-            if (coro) cocls::coro_queue::install_queue_and_call(scope_exit);
-            else scope_exit();
+            // in context c (argument of Finish); an exception thrown in the scope also leaves the frame that
+            // installed the queue
+            const std::string c = w.finish_at >= 0 ? sc.steps[(std::size_t) w.finish_at].sarg(0) : std::string();
+            auto destroy_all = [&] { for (int k = 1; k <= w.maxobj; k++) w.destroy(w.slots[k]); };
+            auto scope_exit = [&] {
+                if (c == "unwind") w.lib([&] { w.unwind_scope(w.maxobj, 1); });
+                else if (c == "dtor") { AtExit<decltype(destroy_all)> owner{destroy_all}; throw Unwind(); }
+                else if (c == "catch") in_ctx(c, destroy_all);
+                else destroy_all();
+            };
+            try {
+                if (coro) cocls::coro_queue::install_queue_and_call(scope_exit);
+                else scope_exit();
+            } catch (const Unwind &) {
+            }
             w.done = true;
             if (w.finish_at >= 0) {
                 if (!rep.check((std::size_t) w.finish_at, w.project())) w.failed = true;
